@@ -228,13 +228,15 @@ def shrink(pts, fails):
             if q and fails(q):
                 pts, changed = q, True
                 break
+    def toward0(v):
+        return [w for w in ({0, v // 2 if v > 0 else -((-v) // 2), v - (v > 0) + (v < 0)}) if abs(w) < abs(v)]
     for _ in range(3):
         for i in range(len(pts)):
-            for cand in ((pts[i][0] // 2, pts[i][1]), (pts[i][0], pts[i][1] // 2),
-                         (pts[i][0] - 1, pts[i][1]), (pts[i][0], pts[i][1] - 1)):
+            for cand in [(x, pts[i][1]) for x in toward0(pts[i][0])] + [(pts[i][0], y) for y in toward0(pts[i][1])]:
                 q = pts[:i] + [cand] + pts[i + 1:]
-                if cand != pts[i] and fails(q):
+                if fails(q):
                     pts = q
+                    break
     return pts
 
 
